@@ -108,7 +108,44 @@ def load_ledger() -> dict:
     return {"obligations": {}}
 
 
+def run_lockcheck(src: str) -> dict:
+    """C18: effect contracts decided by the lexical lock-discipline checker (pyvc/lockcheck.py)."""
+    from . import lockcheck
+    from .source import Source
+
+    t0 = time.time()
+    S = Source(src)
+    r = lockcheck.run(S)
+    ledger = load_ledger().get("obligations", {})
+    out = {"src": src, "z3_version": "n/a (effect checker)", "functions": r["functions"], "obligations": len(r["obligations"]), "discharged": 0, "by_backend": {"effect": 0}, "solver_s": 0.0, "open": [], "errors": [], "out_of_reach": r["out_of_reach"], "must_fail": {"expected_unprovable": 0, "wrongly_proved": 0}, "samples": [], "assumed": [{"function": "threading.RLock", "reason": "mutual exclusion and re-entrancy assumed; no schedule explored"}], "assumption_scan": {}}
+    for o in r["obligations"]:
+        qual = o["name"].split("#")[0]
+        key = lock_key(o["name"], S, qual)
+        if o["ok"]:
+            out["discharged"] += 1
+            out["by_backend"]["effect"] += 1
+            if len(out["samples"]) < 3:
+                out["samples"].append({"obligation": o["name"]})
+        else:
+            out["open"].append({"name": o["name"], "func": qual, "status": "unproved", "reason": "lock-discipline obligation violated: " + o["detail"][:200], "in_ledger": key in ledger, "known_finding": None, "solver_output": o["detail"], "refuter": "path-independent: any call of the operation performs this read without holding the lock"})
+    # vacuity guard: a checker that generates no read-site obligation proves nothing
+    if not any("held>=entry+1" in o["name"] for o in r["obligations"]):
+        out["errors"].append("lockcheck generated no structure-read obligation")
+    out["must_fail"]["expected_unprovable"] = 1
+    out["wall_s"] = time.time() - t0
+    return out
+
+
+def lock_key(name: str, S, qual: str) -> str:
+    try:
+        return stable_key(name, S, qual) if S.lookup(qual)[1] is not None else name
+    except Exception:  # noqa: BLE001
+        return name
+
+
 def run_property(prop: str, tier: str, src: str = "/repo") -> dict | None:
+    if prop == "C18":
+        return run_lockcheck(src)
     reg = load_contracts()
     quals = functions_for(prop, reg)
     if not quals:
@@ -212,6 +249,19 @@ def make_ledger(src="/repo"):
                 led[ob["key"]] = led.get(ob["key"], 0) + 1
             else:
                 stats["open"].append(ob["name"])
+    # C18 effect obligations
+    from . import lockcheck
+    from .source import Source
+
+    S = Source(src)
+    for o in lockcheck.run(S)["obligations"]:
+        stats["obligations"] += 1
+        if o["ok"]:
+            stats["proved"] += 1
+            k = lock_key(o["name"], S, o["name"].split("#")[0])
+            led[k] = led.get(k, 0) + 1
+        else:
+            stats["open"].append(o["name"])
     os.makedirs(os.path.dirname(LEDGER), exist_ok=True)
     json.dump({"generated_from": src, "obligations": dict(sorted(led.items()))}, open(LEDGER, "w"), indent=0)
     print(json.dumps({k: v for k, v in stats.items() if k != "open"}), "open:", len(stats["open"]))
